@@ -978,7 +978,22 @@ class PairEngine:
         incs = self.find_same_region(ctx, e, [c for c in self.companions(ctx, 'N.') if c.kind in ('N.inc', 'N.add')])
         # in the undirected family the (at most) two pushes of one insertion group share one increment
         incs = [c for c in incs if c[0].kind == 'N.inc' or c[0].args[0] == ('int', 1)]
-        if len(incs) == 1:
+        between = []
+        if len(incs) == 1 and ctx.labelled and ctx.cls in (LDG, LUG):
+            # (the class templates with a caller-chosen label type; the multigraph / weighted classes store unsigned / double)
+            # no label code between the two halves of the pair: storing a label copies a user type (allocation, user copy
+            # assignment) and can throw, which would leave the entry listed but uncounted
+            inc = incs[0][0]
+            for c in self.label_sets(ctx):
+                if f.node_dominates(e.node, c['node']) and f.node_dominates(c['node'], inc.node) and c['node'] not in (e.node, inc.node):
+                    between.append(c)
+        if len(incs) == 1 and between:
+            self.fail('F-PAIR.N', ctx, site + ' <-> ++edgeNumber (label copy in between)', between[0]['node'],
+                      'the label is stored (`%s`) after the entry was appended to the list and before the edge count is '
+                      'updated: copying a label runs user code that may throw (std::string / user struct), and the exception '
+                      'leaves the pair listed by hasEdge / the neighbour lists but not counted by getEdgeNumber'
+                      % f.expr_text(between[0]['node'])[:50])
+        elif len(incs) == 1:
             self.ok('F-PAIR.N', ctx, dict(function=f.display(), event=ctx.desc(e.node), companion=ctx.desc(incs[0][0].node)))
         else:
             self.fail('F-PAIR.N', ctx, site + ' <-> ++edgeNumber', e.node,
@@ -1144,6 +1159,40 @@ class PairEngine:
                     runs = False
             if runs:
                 return names[(va, vb)] % (show(x, f.unit), show(y, f.unit))
+        # guards over the length of the list: a length read before the removal is `after + removed`, one read after it is
+        # `after`; the companion must run whenever removed > 0
+        if e.kind == 'A.removeAll':
+            def size_of_x(u):
+                u = strip_cast(u)
+                return u[0] == 'mcall' and u[1] == 'std::list::size' and u[2][0] == 'idx' and u[2][2] == x and ctx.ev.role(u[2][1]) == 'A'
+            for after in (0, 1):
+                for removed in (1, 2):
+                    env = {}
+                    undecided = False
+                    vals = []
+                    for dep in extra_deps:
+                        t, pol = ctx.dep_term(dep)
+                        if t is None:
+                            undecided = True
+                            break
+                        for st in subterms(t):
+                            if st[0] == 'var':
+                                defs = var_defs(f, st[1])
+                                if len(defs) == 1 and defs[0][1] >= 0 and size_of_x(ctx.tt.t(defs[0][1])):
+                                    if f.node_dominates(defs[0][0], e.node):
+                                        env[st] = after + removed
+                                    elif f.node_dominates(e.node, defs[0][0]):
+                                        env[st] = after
+                            elif size_of_x(st):
+                                env[st] = after
+                        v = eval_order(t, env)
+                        if v is None:
+                            undecided = True
+                            break
+                        vals.append(bool(v) == pol)
+                    if not undecided and vals and not all(vals):
+                        return '%d entr%s removed and %d remain%s in the list of %s' % (
+                            removed, 'y is' if removed == 1 else 'ies are', after, 's' if after == 1 else '', show(x, f.unit))
         return None
 
     # -------------------------------------------------------------------------------------------- eraseIt
